@@ -37,6 +37,25 @@ func runC01(c *core.Ctx) {
 	importRules(c, "C20", "C01-PRIM", nil)
 	importRules(c, "C16", "C01-OPTS", nil)
 	importRulesFn(c, "C12", "C01-OWNED", func(sub *core.Ctx) { ownEncodeRules(sub, newAliasAnalysis(sub.Prog), "C12-ENCODE") }, nil)
+	// "the header length field holding the real byte count": the hand-computed and the prefixed length words (C02 rules);
+	// "equal to the original in every field": the encoder may not rewrite its receiver beyond the reviewed defaults (C11 rule)
+	c.MinInstances("C01-LEN", 12)
+	c.MinInstances("C01-NORM", 14)
+	importRulesFn(c, "C02", "C01-LEN", func(sub *core.Ctx) {
+		for _, p := range loadPDUs(sub).list {
+			if p.Enc != nil && p.Dec != nil && p.FullPDU {
+				lenHandRule(sub, p)
+			}
+		}
+		lenPrefixRule(sub)
+	}, nil)
+	importRulesFn(c, "C11", "C01-NORM", func(sub *core.Ctx) {
+		for _, p := range loadPDUs(sub).list {
+			if p.Enc != nil {
+				normalizeRule(sub, p)
+			}
+		}
+	}, nil)
 	c.Trust("go/types resolution of selectors to field objects", "primitive contracts of packet.Reader/Writer (decided by C20)",
 		"E2 spec tables for the text/binary classification of fixed slots (DESIGN.md Appendix A)")
 	c.NotDecided("concrete field values (quantified away by the structural argument)", "equality of optional-parameter sets (C16)", "primitive behaviour (C20)")
